@@ -2,26 +2,35 @@
    TbModel = hextb.cpp's load()/run()/handleSyscall() (hand model, tied by tools/c13.py) driving the generated RTL
    (RtlHex.design, regenerated from the working tree on every run) with Verilator's trigger semantics; a power-on state
    [init] = pc, areg, breg, oreg, every memory word, and the four hidden trigger bits.  [Current] are the constants of
-   hextb.cpp as it is now, [Legacy] those of the pinned tree. *)
+   hextb.cpp as it is now (reset over times 1..9, requests sampled from time RESET_END - 1 = 9), [Previous] those between the
+   two repairs (requests sampled only after reset), [Legacy] those of the pinned tree. *)
 From Coq Require Import ZArith List String.
 From HexVerif Require Import WMap Isa Vexp RtlSem RtlIsa TbModel TbProofs.
 From HexVerif.gen Require RtlHex.
 Import ListNotations.
 Local Open Scope Z_scope.
 
-(* 1. the reset window: for EVERY power-on state, image and input, the ten evaluations of times 1..10 service no system
+(* 1. the reset window: for EVERY power-on state, image and input, the eight evaluations of times 1..8 service no system
    call (no output, no input consumed, loop not left) and end in the canonical boot state: registers 0, memory exactly
-   as load() left it (so no store was performed, and the loaded region holds the loaded words).  Depends on the
-   generated design: registers clear under i_rst = 1 (C03_reset_clears_registers) and memory.sv's write is disabled
-   under i_rst = 1 (RtlC03.rtl_no_write_in_reset -- fails if the !i_rst qualification is removed). *)
+   as load() left it.  The one request sampled while reset is still asserted -- at time 9, the last reset edge -- is
+   that of the instruction at address 0 in this canonical state (with areg = 0 it can only be EXIT).  After the ten
+   evaluations of the reset window, i.e. in the state in which the time-11 edge fetches, the registers are 0 and memory
+   is exactly as load() left it (no store was performed; the loaded region holds the loaded words).  Depends on the
+   generated design: registers clear under i_rst = 1 (C03_reset_clears_registers), memory.sv's write is disabled under
+   i_rst = 1 (RtlC03.rtl_no_write_in_reset -- fails if the !i_rst qualification is removed) and the request lines do not
+   depend on i_rst (RtlC03.rtl_outs_in_reset). *)
 Theorem C13_boot_canonical : forall (i : init) (file : list Z) (inp : inputs),
-  let st := ticks Current RtlHex.design 10 (power_on i file) in
-  run Current RtlHex.design 10 0 (power_on i file) inp [] = ([], inp, st, TNoFuel) /\
-  (forall k, run Current RtlHex.design (10 + k) 0 (power_on i file) inp [] = run Current RtlHex.design k 0 st inp []) /\
-  r_pc (t_s st) = 0 /\ r_areg (t_s st) = 0 /\ r_breg (t_s st) = 0 /\ r_oreg (t_s st) = 0 /\
-  r_mem (t_s st) = r_mem (t_s (power_on i file)) /\
-  (forall j, (j < List.length (loaded_words file))%nat -> rd (r_mem (t_s st)) (Z.of_nat j) = nth j (loaded_words file) 0) /\
-  t_time st = 10 /\ t_clk st = false /\ t_exit st = 0.
+  let st8 := ticks Current RtlHex.design 8 (power_on i file) in
+  let st10 := ticks Current RtlHex.design 10 (power_on i file) in
+  run Current RtlHex.design 8 0 (power_on i file) inp [] = ([], inp, st8, TNoFuel) /\
+  (forall k, run Current RtlHex.design (8 + k) 0 (power_on i file) inp [] = run Current RtlHex.design k 0 st8 inp []) /\
+  r_pc (t_s st8) = 0 /\ r_areg (t_s st8) = 0 /\ r_breg (t_s st8) = 0 /\ r_oreg (t_s st8) = 0 /\
+  r_mem (t_s st8) = r_mem (t_s (power_on i file)) /\ t_time st8 = 8 /\ t_exit st8 = 0 /\
+  (bytes_ok file -> sys_request Current RtlHex.design (tick Current RtlHex.design st8) = (wire RtlHex.design (t_s st8) n_fdata =? 211)) /\
+  r_pc (t_s st10) = 0 /\ r_areg (t_s st10) = 0 /\ r_breg (t_s st10) = 0 /\ r_oreg (t_s st10) = 0 /\
+  r_mem (t_s st10) = r_mem (t_s (power_on i file)) /\
+  (forall j, (j < List.length (loaded_words file))%nat -> rd (r_mem (t_s st10)) (Z.of_nat j) = nth j (loaded_words file) 0) /\
+  t_time st10 = 10 /\ t_clk st10 = false.
 Proof. exact boot_canonical. Qed.
 Print Assumptions C13_boot_canonical.
 
@@ -38,12 +47,11 @@ Print Assumptions C13_fetch_from_zero.
 (* 3. the observable result (events = bytes written per stream, bytes read, exit word; input left unread; how run() ended)
    is the same for every two power-on states, for every amount of fuel (loop iterations), provided the binary and input
    are well-behaved: the ISA trace from the loaded words is defined, stays in range, a READ does not overwrite its own
-   SVC, the first instruction is not a system call, and no word outside the loaded region is read before it is written
-   (non-image memory differs between power-on states).
-   KNOWN FINDINGS, see known_findings.json: "the first instruction is not a system call" (kind first-instruction-svc:
-   the request of the instruction at byte 0 is never sampled -- for every power-on state alike, so seed independence
-   itself is not affected, but the common result is not the ISA's; tools/c13.py exhibits it) and the READ clause
-   (kind read-overwrites-own-svc, exhibited by tools/c03.py and tools/c06.py). *)
+   SVC, and no word outside the loaded region is read before it is written (non-image memory differs between power-on
+   states).  The READ clause is a KNOWN FINDING, see known_findings.json (kind read-overwrites-own-svc, exhibited by
+   tools/c03.py and tools/c06.py).  The former hypothesis "the first instruction is not a system call" is gone: since the
+   repair of hextb.cpp the request of the instruction at address 0 is sampled at the last reset edge
+   (known_findings.json: fixed, kind first-instruction-svc; C13_first_instruction_svc below). *)
 Theorem C13_seed_independent : forall (fuel : nat) (i1 i2 : init) (file : list Z) (inp : inputs),
   bytes_ok file -> well_behaved (Z.of_nat (List.length (loaded_words file))) (loaded_words file) inp ->
   obs (run Current RtlHex.design fuel 0 (power_on i1 file) inp []) = obs (run Current RtlHex.design fuel 0 (power_on i2 file) inp []).
@@ -53,7 +61,7 @@ Print Assumptions C13_seed_independent.
 (* ... and that result is the ISA's, presented in the testbench's rhythm *)
 Theorem C13_run_is_isa : forall (fuel : nat) (i : init) (file : list Z) (inp : inputs) (ws : list Z) (D : Z -> bool),
   bytes_ok file -> agree D (mem (boot ws)) (r_mem (t_s (power_on i file))) ->
-  fetch (boot ws) <> 211 -> (forall n, wb_mon D n (boot ws) inp = true) ->
+  (forall n, wb_mon D n (boot ws) inp = true) ->
   tb_view (run Current RtlHex.design fuel 0 (power_on i file) inp []) = isa_tb fuel (boot ws) inp.
 Proof. exact tb_is_isa_tb. Qed.
 Print Assumptions C13_run_is_isa.
@@ -79,3 +87,13 @@ Proof. exact legacy_witness. Qed.
 Example C13_hypotheses_satisfiable :
   bytes_ok exit7_file /\ well_behaved (Z.of_nat (List.length (loaded_words exit7_file))) (loaded_words exit7_file) no_input.
 Proof. split; [exact exit7_bytes_ok | exact exit7_well_behaved_loaded]. Qed.
+(* a binary whose FIRST instruction is OPR SVC (EXIT 42): with the constants between the two repairs the call was never
+   serviced (the run went on and exited with 9); now it exits with 42 from every power-on state, as the ISA does, and
+   the binary satisfies the hypotheses of C13_seed_independent *)
+Example C13_first_instruction_svc :
+  outcome (run Previous RtlHex.design 60 0 (power_on (planted 0 0 false) first_svc_file) no_input []) = ([Exit 9], TReturned 9) /\
+  outcome (run Current RtlHex.design 60 0 (power_on (planted 0 0 false) first_svc_file) no_input []) = ([Exit 42], TReturned 42) /\
+  outcome (run Current RtlHex.design 60 0 (power_on (planted 13 1 true) first_svc_file) no_input []) = ([Exit 42], TReturned 42) /\
+  (exists a', Isa.run 5 (boot (loaded_words first_svc_file)) no_input [] = ([Exit 42], no_input, a', Exited 42)) /\
+  well_behaved 5 (loaded_words first_svc_file) no_input.
+Proof. exact first_svc_witness. Qed.
